@@ -1,4 +1,5 @@
 import Copia.Model.HubTrace
+import Copia.Model.HubMulti
 import Copia.Driver.Util
 import Copia.Model.Hub
 namespace Copia.Driver.C12
@@ -92,6 +93,23 @@ def handle : List String → Option String
                                       next := 1, lock := none, pc := fun _ => .start }
     let calls := if kind = "put" then (Copia.HubConc.soloPut S s0 1).2 else (Copia.HubConc.soloDelete S s0 1).2
     some (",".intercalate (calls.map Copia.HubConc.Call.name))
+  | ["hubmulti", hub, clients, sched] => do
+    -- several hub-sync clients, any schedule (Model/HubMulti); a content is represented by the first 6 bytes of its BLAKE3
+    let t ← parseTree hub
+    let cl ← (clients.splitOn "|").mapM parseTree
+    let sc ← (if sched = "-" then some [] else (sched.splitOn ",").mapM String.toNat?)
+    let cname := fun (k : List (List Char)) (h : List Nat) =>
+      match k.reverse with
+      | [] => [(".conflict-" ++ hexN h).toList]
+      | last :: rest => rest.reverse ++ [last ++ (".conflict-" ++ hexN h).toList]
+    let s0 : Copia.HubMulti.Sys (List Nat) := { hub := t, clients := fun i => { files := cl.getD i [], listing := none } }
+    let r := Copia.HubMulti.run (fun b => b) cname s0 sc
+    let tr := (r.hub.map fun (k, v) => (compsStr k, hexN v)).mergeSort fun a b => a.1 ≤ b.1
+    let trS := if tr.isEmpty then "-" else ";".intercalate (tr.map fun (k, h) => hexStr k ++ "=" ++ h)
+    let cs := (List.range cl.length).map fun i =>
+      let c := (r.clients i).counters
+      s!"{c.sent}/{c.skipped}/{c.conflicts}"
+    some s!"tree={trS} counters={",".intercalate cs}"
   | ["safejoin", rel] => do
     let rel ← strOfHex rel
     some (match safeJoin [] rel with
